@@ -12,11 +12,11 @@ VARIABLES l, nbad
 
 UOpsT == {"cast", "floor", "ceil", "round", "conv"}
 
-UVal(op, i, j, rt, c) ==
-    CASE op \in {"cast", "conv"} -> CastVal(i, j, rt, c)
-      [] op = "floor" -> FloorVal(i, j, rt, c)
-      [] op = "ceil" -> CeilVal(i, j, rt, c)
-      [] op = "round" -> RoundVal(i, j, rt, c)
+UVal(op, i, j, rt, c, ce) ==
+    CASE op \in {"cast", "conv"} -> CastVal(i, j, rt, c, ce)
+      [] op = "floor" -> FloorVal(i, j, rt, c, ce)
+      [] op = "ceil" -> CeilVal(i, j, rt, c, ce)
+      [] op = "round" -> RoundVal(i, j, rt, c, ce)
 
 BaseSpelling(s) == IF s = "rplus" THEN "plus" ELSE IF s = "diff" THEN "minus" ELSE s
 
@@ -55,11 +55,11 @@ TypedefOK(ev) ==
 
 Judge(ev) ==
     CASE ev.op \in UOpsT ->
-            IF ~UPre(ev.op, ev.i, ev.j, ev.rf, ev.rt, ev.c) THEN "harness-pre"
-            ELSE IF ev.ret = UVal(ev.op, ev.i, ev.j, ev.rt, ev.c) THEN "ok"
-            \* C12 names "conversion to the common type": the target is the common type iff the factor is integral.
-            \* Other (floating-point) implicit conversions are judged too but reported apart (kind note-...).
-            ELSE IF ev.op = "conv" /\ Den(ev.i, ev.j) # <<>> THEN "note-conv-noncommon" ELSE ev.op
+            IF ~UPre(ev.op, ev.i, ev.j, ev.rf, ev.rt, ev.c, ev.ce) THEN "harness-pre"
+            ELSE IF ev.ret = UVal(ev.op, ev.i, ev.j, ev.rt, ev.c, ev.ce) THEN "ok"
+            \* conv: the implicit conversion [time.duration.cons] = duration_cast where it participates; every judged
+            \* case has an exactly representable result (UPre), so a wrong value is a deviation of C12
+            ELSE ev.op
       [] ev.op = "conv_ok" -> IF ev.ret = ConvAllowed(ev.i, ev.j, ev.rf, ev.rt) THEN "ok" ELSE "conv-constraint"
       [] ev.op = "conv_missing" -> "conv-constraint"
       [] ev.op = "bin" ->
@@ -73,7 +73,7 @@ Judge(ev) ==
       [] OTHER -> "harness-unknown-op"
 
 Expected(ev) ==
-    CASE ev.op \in UOpsT -> IF UPre(ev.op, ev.i, ev.j, ev.rf, ev.rt, ev.c) THEN ToJson(UVal(ev.op, ev.i, ev.j, ev.rt, ev.c)) ELSE "-"
+    CASE ev.op \in UOpsT -> IF UPre(ev.op, ev.i, ev.j, ev.rf, ev.rt, ev.c, ev.ce) THEN ToJson(UVal(ev.op, ev.i, ev.j, ev.rt, ev.c, ev.ce)) ELSE "-"
       [] ev.op = "bin" -> BinExpected(ev)
       [] ev.op = "member" -> IF ev.s \in MemberOps /\ MemberPre(ev.s, ev.r, ev.c, ev.k)
                              THEN ToJson([ret |-> V(MemberRet(ev.s, ev.c, ev.k)), obj |-> V(MemberNew(ev.s, ev.c, ev.k))]) ELSE "-"
